@@ -792,4 +792,102 @@ package serf
 //@       exists(func(j int) bool { return n0 <= j && j < sentN(outCh) && sentMemberEvent(outCh, j).Type == t }) })
 //@ end
 
+// ---------------------------------------------------------------- user event coalescing (C18)
+
+//@ pure func isUserEvent(e Event) bool { _, ok := e.(UserEvent); return ok }
+//@ pure func asUserEvent(e Event) UserEvent { u, _ := e.(UserEvent); return u }
+// a member event never claims the user-event kind (the kinds are fixed where member events are built)
+//@ pure func isQueryEvent(e Event) bool { _, ok := e.(*Query); return ok }
+//@ pure func wfEventKind(e Event) bool {
+//@   return (isMemberEvent(e) || isUserEvent(e) || isQueryEvent(e)) && (isMemberEvent(e) ==> asMemberEvent(e).Type != EventUser)
+//@ }
+
+// every pending entry holds, in arrival order, user events of the name it is filed under, all of the entry's Lamport time
+//@ pure func wfUserCoalescer(c *userEventCoalescer) bool {
+//@   return c != nil && c.events != nil &&
+//@     forall(func(k string) bool { return mapHas(c.events, k) ==> mapAt(c.events, k) != nil && allocated(mapAt(c.events, k)) &&
+//@       len(mapAt(c.events, k).Events) >= 1 && arrayAllocated(mapAt(c.events, k).Events) }) &&
+//@     forall2(func(k string, p int) bool { return mapHas(c.events, k) && 0 <= p && p < len(mapAt(c.events, k).Events) ==>
+//@       isUserEvent(mapAt(c.events, k).Events[p]) && asUserEvent(mapAt(c.events, k).Events[p]).Name == k &&
+//@       asUserEvent(mapAt(c.events, k).Events[p]).LTime == mapAt(c.events, k).LTime }) &&
+//@     forall2(func(k, k2 string) bool { return mapHas(c.events, k) && mapHas(c.events, k2) && k != k2 ==>
+//@       mapAt(c.events, k) != mapAt(c.events, k2) && disjoint(mapAt(c.events, k).Events, mapAt(c.events, k2).Events) })
+//@ }
+
+//@ func (c *userEventCoalescer) Handle(e Event) (ok bool)
+//@   requires kind: wfEventKind(e)
+//@   ensures only_coalescable_user_events [C18]: ok == (isUserEvent(e) && asUserEvent(e).Coalesce)
+//@ end
+
+//@ func (c *userEventCoalescer) Coalesce(e Event)
+//@   requires wf: wfUserCoalescer(c)
+//@   requires user_event: isUserEvent(e)
+//@   oldlet u := asUserEvent(e)
+//@   oldlet had := mapHas(c.events, u.Name)
+//@   oldlet ent0 := mapAt(c.events, u.Name)
+//@   oldlet lt0 := ent0.LTime
+//@   oldlet len0 := len(ent0.Events)
+//@   let ent := mapAt(c.events, u.Name)
+//@   ensures wf [C18]: wfUserCoalescer(c)
+//@   ensures still_pending [C18]: mapHas(c.events, u.Name)
+//@   ensures newer_replaces [C18]: !had || lt0 < u.LTime ==> ent.LTime == u.LTime && len(ent.Events) == 1 && ent.Events[0] == e
+//@   ensures same_age_appended [C18]: had && lt0 == u.LTime ==> ent == ent0 && ent.LTime == lt0 && len(ent.Events) == len0+1 && ent.Events[len0] == e &&
+//@       forall(func(p int) bool { return 0 <= p && p < len0 ==> ent.Events[p] == old(ent0.Events[p]) })
+//@   ensures older_ignored [C18]: had && lt0 > u.LTime ==> ent == ent0 && ent.LTime == lt0 && len(ent.Events) == len0 &&
+//@       forall(func(p int) bool { return 0 <= p && p < len0 ==> ent.Events[p] == old(ent0.Events[p]) })
+//@   ensures other_names_untouched [C18]: forall(func(k string) bool { return k != u.Name ==>
+//@       mapHas(c.events, k) == old(mapHas(c.events, k)) && mapAt(c.events, k) == old(mapAt(c.events, k)) &&
+//@       (mapHas(c.events, k) ==> mapAt(c.events, k).LTime == old(mapAt(c.events, k).LTime) && len(mapAt(c.events, k).Events) == old(len(mapAt(c.events, k).Events))) })
+//@   ensures other_names_events_kept [C18]: forall2(func(k string, p int) bool { return k != u.Name && mapHas(c.events, k) && 0 <= p && p < len(mapAt(c.events, k).Events) ==>
+//@       mapAt(c.events, k).Events[p] == old(mapAt(c.events, k).Events[p]) })
+//@ end
+
+//@ pure func sentUser(ch chan<- Event, j int) UserEvent { return asUserEvent(sentAt(ch, j)) }
+
+// Flush emits, for each pending name, its entry's events as one contiguous block in arrival order, and nothing else:
+// everything sent belongs to a pending name (only_pending), every pending name has its block (block_per_name), and two
+// sent events of one name are never further apart than that name's block is long (nothing_else) -- so the events sent
+// under a name are exactly its block.
+//@ func (c *userEventCoalescer) Flush(outChan chan<- Event)
+//@   requires wf: wfUserCoalescer(c)
+//@   requires out_open: !closed(outChan)
+//@   oldlet n0 := sentN(outChan)
+//@   oldlet m0 := c.events
+//@   let n1 := sentN(outChan)
+//@   ensures only_pending [C18]: n0 <= n1 && forall(func(j int) bool { nm := sentUser(outChan, j).Name
+//@       return n0 <= j && j < n1 ==> isUserEvent(sentAt(outChan, j)) && old(mapHas(m0, nm)) })
+//@   ensures block_per_name [C18]: forall(func(k string) bool { return old(mapHas(m0, k)) ==> exists(func(s int) bool {
+//@       return witness(s) && n0 <= s && s+old(len(mapAt(m0, k).Events)) <= n1 && forall(func(j int) bool {
+//@         return s <= j && j < s+old(len(mapAt(m0, k).Events)) ==> sentAt(outChan, j) == old(mapAt(m0, k).Events[j-s]) }) }) })
+//@   ensures nothing_else [C18]: forall2(func(j, j2 int) bool { nm := sentUser(outChan, j).Name
+//@       return n0 <= j && j < j2 && j2 < n1 && nm == sentUser(outChan, j2).Name ==> j2-j < old(len(mapAt(m0, nm).Events)) })
+//@   ensures window_reset [C18]: wfUserCoalescer(c) && forall(func(k string) bool { return !mapHas(c.events, k) })
+//@   loop 1 invariant wf [C18]: wfUserCoalescer(c) && same(c.events, m0) && n0 <= sentN(outChan)
+//@   loop 1 invariant sent_visited [C18]: forall(func(j int) bool { return n0 <= j && j < sentN(outChan) ==>
+//@       isUserEvent(sentAt(outChan, j)) && mapHas(m0, sentUser(outChan, j).Name) && visited(m0, sentUser(outChan, j).Name) })
+//@   loop 1 invariant visited_blocks [C18]: forall(func(k string) bool { return visited(m0, k) ==> mapHas(m0, k) && exists(func(s int) bool {
+//@       return witness(s) && n0 <= s && s+len(mapAt(m0, k).Events) <= sentN(outChan) && forall(func(j int) bool {
+//@         return s <= j && j < s+len(mapAt(m0, k).Events) ==> sentAt(outChan, j) == mapAt(m0, k).Events[j-s] }) }) })
+//@   loop 1 invariant compact [C18]: forall2(func(j, j2 int) bool {
+//@       return n0 <= j && j < j2 && j2 < sentN(outChan) && sentUser(outChan, j).Name == sentUser(outChan, j2).Name ==>
+//@         j2-j < len(mapAt(m0, sentUser(outChan, j).Name).Events) })
+//@   loop 2 vars ri=rangeindex int, latest *latestUserEvents
+//@   loop 2 invariant wf [C18]: wfUserCoalescer(c) && same(c.events, m0) && latest != nil && -1 <= ri && ri < len(latest.Events) && n0 <= sentN(outChan)-(ri+1) && witness(sentN(outChan)-(ri+1))
+//@   loop 2 invariant current [C18]: mapHas(m0, curName(latest)) && mapAt(m0, curName(latest)) == latest && visited(m0, curName(latest))
+//@   loop 2 invariant block_so_far [C18]: forall(func(j int) bool { return sentN(outChan)-(ri+1) <= j && j < sentN(outChan) ==>
+//@       sentAt(outChan, j) == latest.Events[j-(sentN(outChan)-(ri+1))] })
+//@   loop 2 invariant block_names [C18]: forall(func(j int) bool { return sentN(outChan)-(ri+1) <= j && j < sentN(outChan) ==> sentUser(outChan, j).Name == curName(latest) })
+//@   loop 2 invariant earlier_other_names [C18]: forall(func(j int) bool { return n0 <= j && j < sentN(outChan)-(ri+1) ==> sentUser(outChan, j).Name != curName(latest) })
+//@   loop 2 invariant sent_visited [C18]: forall(func(j int) bool { return n0 <= j && j < sentN(outChan) ==>
+//@       isUserEvent(sentAt(outChan, j)) && mapHas(m0, sentUser(outChan, j).Name) && visited(m0, sentUser(outChan, j).Name) })
+//@   loop 2 invariant visited_blocks [C18]: forall(func(k string) bool { return visited(m0, k) && k != curName(latest) ==> mapHas(m0, k) && exists(func(s int) bool {
+//@       return witness(s) && n0 <= s && s+len(mapAt(m0, k).Events) <= sentN(outChan)-(ri+1) && forall(func(j int) bool {
+//@         return s <= j && j < s+len(mapAt(m0, k).Events) ==> sentAt(outChan, j) == mapAt(m0, k).Events[j-s] }) }) })
+//@   loop 2 invariant compact [C18]: forall2(func(j, j2 int) bool {
+//@       return n0 <= j && j < j2 && j2 < sentN(outChan)-(ri+1) && sentUser(outChan, j).Name == sentUser(outChan, j2).Name ==>
+//@         j2-j < len(mapAt(m0, sentUser(outChan, j).Name).Events) })
+//@ end
+// the name whose entry the inner loop is emitting (entries are never empty)
+//@ pure func curName(l *latestUserEvents) string { return asUserEvent(l.Events[0]).Name }
+
 // END-OF-CONTRACTS
